@@ -180,9 +180,49 @@ def run(ctx):
         fid = finding_of(row, kpaths, kaccs) if narrow else None
         ctx.violation("failing-input", f"{c}.{st}",
                       {**w, "broken": broken_name(row, fid) if narrow else "totals_exact_for_wide_paths"}, finding_id=fid)
+    synthetic_stream(ctx)
     stale = [k for k in kpaths if k not in {(c, s, l, pk) for c, s, l, sk, pk in rows}]
     if stale:
         ctx.notes.append(f"stale known-finding paths (not narrow on this tree; path_excuses_are_live fails): {stale[:6]}")
+
+
+def synthetic_stream(ctx):
+    """The classifier and round_kind on every tensor kind: a float64 accumulator fed through one torch cast."""
+    s3 = ctx.stream("synthetic paths (float64 accumulator behind one torch cast to each kind: classifier self-test, round_kind vs torch)")
+    mcases, meta = [], []
+    for lay, kind in P.synthetic_layouts():
+        want = kind if kind not in P.WIDE else "F64"
+        f = P.fit(lay)
+        if "total" not in f:
+            ctx.oblige(f"tie:accpath-classifier:{kind}", False, detail="synthetic layout not fitted")
+            continue
+        a, b = f["total"]
+        sk, pk, kept, prob = P.classify(lay, "total", a, b)
+        ctx.oblige(f"tie:accpath-classifier:{kind}", prob is None and sk == "F64" and pk == want,
+                   detail=f"classified storage {sk} path {pk} ({prob}); kept {kept}")
+        e = P.EDGE[kind]
+        top = 60000 if kind == "F16" else 2 ** 52
+        vs = [e - 1, e, e + 1, e + 3, 2 * e + 1, 2 * e + 3, 3 * e + 5, 2 ** 24 + 1, 2 ** 31 + 1, 2 ** 40 + 3, -(e + 1), -(e + 3), -(2 * e + 1), -5]
+        vs += [ctx.rng.randrange(-top, top) for _ in range(ctx.n(12, 60))]
+        for i, V in enumerate(v for v in vs if abs(v) <= top):
+            base = [0, 3, 2 ** 24 + 1, 2 ** 40 + 3][i % 4]
+            try:
+                inj, obs = P.run_from(lay, "total", base, V)
+            except Exception as ex:
+                ctx.oblige(f"tie:accpath-synthetic:{kind}", False, detail=f"{type(ex).__name__}: {ex}")
+                break
+            mcases.append(P.model_case("F64", kind, "conv", inj[0], [V]))
+            meta.append((kind, inj[0], V, obs[0]))
+    outs = run_model(mcases)
+    bad = {}
+    for (kind, i, V, o), mo in zip(meta, outs):
+        s3.case((kind, i, V), True, sample={"path": kind, "injected": i, "addend": V, "observed": o, "model": mo})
+        s3.count("path:" + kind)
+        s3.count("lost" if o != i + V else "kept")
+        if mo != o and kind not in bad:
+            bad[kind] = {"path": kind, "injected": i, "addend": V, "observed": o, "model": mo}
+    for kind in sorted({m[0] for m in meta}):
+        ctx.oblige(f"tie:accpath-synthetic:{kind}", kind not in bad, detail=repr(bad.get(kind, "")))
 
 
 def replay(d):
